@@ -552,6 +552,28 @@ pub fn run(rng: &mut Rng, n: usize, slice: usize, nslices: usize, thorough: bool
     for _ in 0..n {
         let (faces, nv) = random_mesh(rng);
         case("topo.case", "c12.library_call_panics", || check_mesh(&faces, nv, rng, 4));
+        // pinwheels: a central polygon fan whose boundary cycle consists ONLY of pinch vertices, each carrying a
+        // petal (a side loop of its own); every boundary edge still belongs to exactly one loop
+        if rng.chance(0.05) {
+            let k = rng.int(3, 6) as u32; // corners of the central polygon 0..k, hub k
+            let mut pw: Vec<[u32; 3]> = vec![];
+            let hub_fan = k > 3 && rng.chance(0.5);
+            if hub_fan {
+                for c in 0..k { pw.push([k, c, (c + 1) % k]); }
+            } else {
+                for c in 1..k - 1 { pw.push([0, c, c + 1]); }
+            }
+            let mut next = k + 1;
+            for c in 0..k {
+                let petals = rng.int(1, 2) as u32;
+                for _ in 0..petals {
+                    pw.push([c, next, next + 1]);
+                    next += 2;
+                }
+            }
+            if rng.chance(0.5) { rng.shuffle(&mut pw); }
+            case("topo.case", "c12.library_call_panics", || check_mesh(&pw, next as usize, rng, 4));
+        }
         // the same connectivity on vertex ids far up the id space (ids straddling and beyond 2^16,
         // 2^17, 2^20): nothing in the edge table may depend on the ids being small
         if rng.chance(0.04) {
